@@ -58,13 +58,17 @@ func main() {
 		os.MkdirAll(cfg.Dir, 0o755)
 	}
 	if *replay != "" {
-		os.Exit(replayFile(*repo, *verifDir, *replay))
+		rc := replayFile(*repo, *verifDir, *replay)
+		os.RemoveAll(dir)
+		os.Exit(rc)
 	}
 	if *prop != "" {
 		if *outDir == "" {
 			*outDir = *verifDir
 		}
-		os.Exit(runProperty(p, *prop, *tier, cfg, *verifDir, *outDir))
+		rc := runProperty(p, *prop, *tier, cfg, *verifDir, *outDir)
+		os.RemoveAll(dir)
+		os.Exit(rc)
 	}
 	var targets []string
 	switch {
@@ -144,6 +148,7 @@ func main() {
 	}
 	fmt.Printf("load %.1fs total %.1fs\n", p.loadSecs, time.Since(t0).Seconds())
 	if bad > 0 {
+		os.RemoveAll(dir)
 		os.Exit(1)
 	}
 }
